@@ -475,7 +475,7 @@ func copyContent(m map[string][]byte) map[string][]byte {
 
 func runHistory(o *out.Out, r *gen.Rand, c int) {
 	secure := r.Chance(1, 6)
-	fam := r.Pick(5, 3, 4, 2, 0, 3)
+	fam := r.Pick(5, 3, 4, 2, 0, 3, 4)
 	if secure {
 		fam = 4
 	}
@@ -483,6 +483,8 @@ func runHistory(o *out.Out, r *gen.Rand, c int) {
 	thrL := 0
 	if fam == 5 {
 		uni, thrL = thresholdUniverse(r)
+	} else if fam == 6 {
+		uni = edgeNibbleUniverse(r)
 	} else {
 		uni = genUniverse(r, fam)
 	}
@@ -612,7 +614,11 @@ func runHistory(o *out.Out, r *gen.Rand, c int) {
 			// observation of every slot and the check of all referenced roots are the oracles)
 			doGC(o, r, step, db, gc, slots, secure, uni)
 		}
-		switch r.Pick(40, 12, 6, 8, 7, 7, 4, 12, 7, 9) {
+		wRange := 9
+		if fam == 6 {
+			wRange = 30 // the family made for the child-index boundaries of the range-proof code
+		}
+		switch r.Pick(40, 12, 6, 8, 7, 7, 4, 12, 7, wRange) {
 		case 0: // Update
 			v := genValue(r)
 			if fam == 5 && r.Chance(3, 4) {
@@ -739,9 +745,8 @@ func runHistory(o *out.Out, r *gen.Rand, c int) {
 			sig += "I"
 			o.Op(io[0], io[1]+" "+observe(step, s))
 		case 9: // range proof over the content between two edge keys
-			io := strings.SplitN(doRange(o, r, step, s, st, uni, keyOf), "\x00", 2)
+			doRange(o, r, step, s, st, uni, keyOf)
 			sig += "Q"
-			o.Op(io[0], io[1])
 		}
 	}
 	// final: fresh build from the content (the model prints the root of its canonical constructor)
@@ -1247,7 +1252,7 @@ func main() {
 			nlist(types.EmptyRootHash.Bytes()))
 	})
 	o := out.Open()
-	o.Rule = "a case is one trie history (Update/Delete/Get/Hash/Commit/Reopen/Copy/Prove over a key universe with shared prefixes, 3 slots sharing one database), one StackTrie run, one DeriveSha run, or one crafted (possibly malformed) proof; non-trivial = at least 3 operations or 2 keys; distinct by (family, universe size, first 24 op kinds) / (kind, size, outcome)"
+	o.Rule = "a case is one trie history (Update/Delete/Get/Hash/Commit/Reopen/Copy/Prove/Iterate/RangeProof over a key universe with shared prefixes, 3 slots sharing one reference-counted database with garbage collection in between), one StackTrie run (plus Commit with a writer and a marshal/unmarshal round trip), one DeriveSha run, one bulk run (>= 100 unhashed changes: parallel hashing), or one crafted (possibly malformed) proof; non-trivial = at least 3 operations or 2 keys; distinct by (family, universe size, first 24 op kinds) / (kind, size, outcome)"
 	// ORACLE (constant): the empty root is keccak(rlp(""))
 	if !bytes.Equal(types.EmptyRootHash.Bytes(), crypto.Keccak256([]byte{0x80})) {
 		o.Case(-1, "CASE -1 X")
@@ -1259,15 +1264,17 @@ func main() {
 			continue
 		}
 		r := root.Fork(uint64(c))
-		switch r.Pick(16, 3, 1, 4) {
+		switch r.Pick(32, 6, 2, 8, 1) {
 		case 0:
 			runHistory(o, r, c)
 		case 1:
 			runStack(o, r, c)
 		case 2:
 			runDerive(o, r, c)
-		default:
+		case 3:
 			runCrafted(o, r, c)
+		default:
+			runBulk(o, r, c)
 		}
 	}
 	o.Close()
